@@ -12,23 +12,11 @@ from .core import Res, PropRes, BuildError, sh, cbmc_cmd, classify
 sys.setrecursionlimit(1000000)
 
 
+_TOK = re.compile(r';[^\n]*|\|[^|]*\||"[^"]*"|[()]|[^\s()]+')
+
+
 def tokenize(s):
-    toks = []; i = 0; n = len(s)
-    while i < n:
-        c = s[i]
-        if c in ' \t\r\n': i += 1
-        elif c == ';':
-            while i < n and s[i] != '\n': i += 1
-        elif c in '()': toks.append(c); i += 1
-        elif c == '|':
-            j = s.index('|', i + 1); toks.append(s[i:j + 1]); i = j + 1
-        elif c == '"':
-            j = s.index('"', i + 1); toks.append(s[i:j + 1]); i = j + 1
-        else:
-            j = i
-            while j < n and s[j] not in ' \t\r\n()': j += 1
-            toks.append(s[i:j]); i = j
-    return toks
+    return [t for t in _TOK.findall(s) if t[0] != ';']
 
 
 def parse(toks):
@@ -326,9 +314,9 @@ def run_real(ctx, ob, extra_defs=None):
         return Res(ob, 'error', detail=str(x), secs=time.time() - t0)
     base = ['cbmc', gb, '--function', 'harness', '--unwind', str(ob.unwind)]
     if ob.unwindset: base += ['--unwindset', ','.join(ob.unwindset)]
-    base += ['--no-standard-checks', '--no-malloc-may-fail', '--drop-unused-functions', '--slice-formula', '--unwinding-assertions'] + list(ob.flags)
+    base += ['--no-standard-checks', '--no-malloc-may-fail', '--drop-unused-functions', '--slice-formula'] + list(ob.flags)
     if ob.object_bits: base += ['--object-bits', str(ob.object_bits)]
-    rc, out, err, secs = sh(base + ['--show-properties', '--json-ui'], timeout=120)
+    rc, out, err, secs = sh(base + ['--unwinding-assertions', '--show-properties', '--json-ui'], timeout=120)
     plist = []
     try:
         for item in json.loads(out):
@@ -345,9 +333,26 @@ def run_real(ctx, ob, extra_defs=None):
     undec = []
     h = os.path.basename(gb)
     unwind_props = [p for p in plist if classify(ob, p[0], p[1]) == 'unwind']
-    goals = [p for p in plist if classify(ob, p[0], p[1]) in ('goal', 'witness')]
-    # unwinding assertions are decided bit-precisely in one extra CBMC run (they concern trip counts, not values)
-    for name, desc, loc in goals + unwind_props:
+    # E-REAL decides the harness assertions only; memory-model preconditions of libc models (free/realloc) are E-BITS' business
+    goals = [p for p in plist if classify(ob, p[0], p[1]) in ('goal', 'witness') and re.search(r'\.assertion\.\d+$', p[0]) and '/harness/' in (p[2] or {}).get('file', '')]
+    # unwinding assertions are decided bit-precisely in ONE extra CBMC run (they concern trip counts, not values):
+    # user assertions off, standard checks off => only the unwinding assertions remain as properties
+    if unwind_props:
+        rc, o, e, dt = sh(base + ['--unwinding-assertions', '--no-assertions', '--json-ui', '--verbosity', '4'], timeout=max(60, to))
+        solver_secs += dt
+        okrun = False
+        if rc != -9:
+            try:
+                from .core import parse_cbmc_json
+                results, status, perr = parse_cbmc_json(o)
+                bad = [r_['property'] for r_ in (results or []) if r_.get('status') != 'SUCCESS' and classify(ob, r_.get('property', ''), r_.get('description', '')) == 'unwind']
+                okrun = results is not None and not bad
+                if bad: undec.append(bad[0]); props.append(PropRes(bad[0], 'unwinding assertion', 'undecided', '', info='unwinding bound too small'))
+            except Exception: okrun = False
+        if not okrun and not undec:
+            undec.append('unwind'); props.append(PropRes('unwind', 'unwinding assertions', 'undecided', '', info='unwinding run failed/timeout'))
+    base = base + ['--no-unwinding-assertions']
+    for name, desc, loc in goals:
         role = classify(ob, name, desc)
         locs = f"{os.path.basename(loc.get('file',''))}:{loc.get('line','')}" if loc else ''
         vc = os.path.join(ctx.work, f'vc_{h}_{re.sub(r"[^A-Za-z0-9]", "_", name)}.smt2')
